@@ -244,7 +244,11 @@ def run_declare_define(rec, S):
                 ok, how = True, "state from declare_variable"
             elif ss.startswith("SymbolState::"):
                 hidden = nm.get("e") == "path" and re.match(r"^[A-Z_]+$", nm["p"]) is not None
-                module_import = ss == "SymbolState::ModuleInitialized" and name == "import"
+                # an import binding: the define directly follows the emission of Import / ImportSym in the
+                # same block (imports are module-level statements; the binding lives in the module table)
+                evs_f = synq.events(f)
+                prev_ops = [e for e in evs_f if e.kind == "op" and e.line <= ev.line and e.path[:-1] == ev.path[:len(e.path) - 1] and e.path and ev.path and e.path[-1][0] == ev.path[len(e.path) - 1][0] and e.path[-1][1] < ev.path[len(e.path) - 1][1]]
+                module_import = ss == "SymbolState::ModuleInitialized" and bool(prev_ops) and prev_ops[-1].name in ("Import", "ImportSym")
                 ok, how = hidden or module_import, "literal %s for %s" % (ss, synq.src(nm))
             else:
                 ok, how = False, "state expression %s" % ss
